@@ -160,11 +160,14 @@ func (server *Server) registerSugarExecutors() {
 	server.RegisterExexutor("STRLEN", func(conn *Conn, cmd string, args Arguments) (*Message, error) {
 		getRet, err := server.executeCommand(conn, "GET", args)
 		if err != nil {
+			return nil, err
+		}
+		if getRet.IsNil() {
 			return NewIntegerMessage(0), nil
 		}
 		getVal, err := getRet.String()
 		if err != nil {
-			return NewIntegerMessage(0), nil
+			return nil, err
 		}
 		return NewIntegerMessage(len(getVal)), nil
 	})
@@ -178,7 +181,7 @@ func (server *Server) registerSugarExecutors() {
 	server.RegisterExexutor("HEXISTS", func(conn *Conn, cmd string, args Arguments) (*Message, error) {
 		getRet, err := server.executeCommand(conn, "HGET", args)
 		if err != nil {
-			return NewIntegerMessage(0), nil
+			return nil, err
 		}
 		_, err = getRet.String()
 		if err != nil {
